@@ -237,12 +237,23 @@ class Env:
             P._DEFERRED_DISPATCH_BY_NAME = LogDict(real_deferred, self)
             P.pretty_dispatch = DispatchProxy(real_dispatch, self)
 
+            mode = getattr(self, 'container', None)
+            values = None
+            if mode is not None:
+                a1, a2 = self.lat[1](), self.lat[1]()
+                shared_list = [a1, a2]
+                values = [shared_list, shared_list] if mode == 'shared' else [[a1, a2], [a1, a2]]
+                one = pp.pformat([self.lat[1](), self.lat[1]()]) if False else None
+
             def worker(tid):
                 _tls.tid = tid
                 try:
                     with warnings.catch_warnings():
                         warnings.simplefilter('ignore')
-                        results[tid] = pp.pformat(self.lat[self.thread_classes[tid]]())
+                        if values is not None:
+                            results[tid] = pp.pformat(values[tid])
+                        else:
+                            results[tid] = pp.pformat(self.lat[self.thread_classes[tid]]())
                 except BaseException as e:   # noqa
                     results[tid] = 'EXC:' + type(e).__name__
                 finally:
@@ -256,6 +267,11 @@ class Env:
         finally:
             P.pretty_dispatch = real_dispatch
             P._DEFERRED_DISPATCH_BY_NAME = real_deferred
+            if getattr(self, 'container', None) is not None:
+                # sequential reference in the same registry state (everything is promoted by now)
+                with warnings.catch_warnings():
+                    warnings.simplefilter('ignore')
+                    self.sequential_container = [norm(pp.pformat(v)) for v in values]
             real_deferred.clear()
             real_deferred.update(snapshot)
         return results, req
@@ -341,6 +357,45 @@ SCENARIOS = [
 ]
 
 
+def container_scenarios(tier):
+    """threads printing containers (so that there are switch points *inside* a visit): the same list object from two
+    threads, and distinct lists holding the same instances.  Only the results are compared (with the sequential ones)."""
+    import sec_registry
+    fails = []
+    runs = 0
+    for shared in (True, False):
+        for setup in ([('rn', 1)], [('rc', 1)]):
+            stack = [[]]
+            seen = set()
+            while stack and runs < (400 if tier == 'quick' else 4000):
+                prefix = stack.pop()
+                env = Env(setup, [1, 1])
+                # build the values after the lattice exists: patch Env.run's worker through thread_values
+                env.container = ('shared' if shared else 'distinct')
+                results, _ = env.run(prefix)
+                runs += 1
+                trace = tuple(env.sched.trace)
+                if trace in seen:
+                    continue
+                seen.add(trace)
+                seq = env.sequential_container
+                got = [norm(r) for r in results]
+                if got != seq and len(fails) < 3:
+                    fails.append({'kind': 'concurrent-result-differs', 'scenario': 'two threads print %s list [A(), A()]' % env.container,
+                                  'setup': [list(o) for o in setup], 'schedule': list(trace), 'results': got, 'sequential': seq})
+                ch = dict(env.sched.choices)
+                for pos, enabled in env.sched.choices:
+                    if pos < len(prefix):
+                        continue
+                    for alt in enabled:
+                        if alt != trace[pos]:
+                            cand = list(trace[:pos]) + [alt]
+                            k = sum(1 for i in range(1, len(cand)) if cand[i] != cand[i - 1] and cand[i - 1] in ch.get(i, []))
+                            if k <= 1:
+                                stack.append(cand)
+    return runs, fails
+
+
 def threads_section(tier, seed):
     drv = Driver()
     tot = distinct = nt = 0
@@ -358,9 +413,12 @@ def threads_section(tier, seed):
             nt += n
             mism.extend(mm)
             fails.extend(ff)
+        cruns, cfails = container_scenarios(tier)
+        tot += cruns
+        fails.extend(cfails)
     finally:
         drv.close()
-    stats = {'evaluations': tot, 'distinct_nontrivial': nt, 'distinct_schedules': distinct, 'scenarios': len(SCENARIOS),
+    stats = {'evaluations': tot, 'distinct_nontrivial': nt, 'distinct_schedules': distinct, 'scenarios': len(SCENARIOS) + 4, 'container_runs': cruns,
              'preemption_bound': bound, 'mismatches': len(mism),
              'samples': [{'setup': SCENARIOS[0][0], 'threads_print_classes': SCENARIOS[0][1]}],
              'rule': 'real threads under a deterministic scheduler with a switch point at every access to the deferred dict / singledispatch object; '
